@@ -482,12 +482,14 @@ impl ArrayLike for MappedArray {
 			unreachable!()
 		};
 
-		let val = self
-			.inner
-			.get(index)
-			.transpose()
-			.expect("index checked")
-			.and_then(|r| self.evaluate(index, r));
+		// Same as in ExprArray: count element evaluation towards the stack depth limit
+		let val = check_depth().map_err(Error::from).and_then(|_guard| {
+			self.inner
+				.get(index)
+				.transpose()
+				.expect("index checked")
+				.and_then(|r| self.evaluate(index, r))
+		});
 
 		let new_value = match val {
 			Ok(v) => v,
